@@ -313,6 +313,16 @@ pub fn byte_opcode(emitter: &dyn Emitter, opcode: raw::Opcode) -> Result<u8, cra
     }
 }
 
+/// Like [`header_field`] for opcodes in formats where opcode `-1` marks the end of a script; an instruction
+/// written with that opcode would cut the script short when the file is read.
+pub fn non_terminal_opcode(emitter: &dyn Emitter, opcode: raw::Opcode) -> Result<u16, crate::error::ErrorReported> {
+    if opcode == 0xFFFF {
+        Err(emitter.as_sized().emit(error!("opcode {opcode} (-1) cannot be used in this format; it marks the end of a script")))
+    } else {
+        Ok(opcode)
+    }
+}
+
 // =============================================================================
 // Hooks for use during raising/lowering
 
